@@ -67,12 +67,12 @@ def ctxLines (s : Span) (pfx : Nat) : Nat := min pfx (s.start.line - 1)
 
 /-- line numbers displayed for a span: context lines, first line, and (if different) last line -/
 def shown (s : Span) (pfx : Nat) : List Nat :=
-  (List.range (ctxLines s pfx + 1)).map (· + (s.start.line - ctxLines s pfx)) ++
+  (List.range (ctxLines s pfx + 1)).map (fun i => s.start.line - ctxLines s pfx + i) ++
     (if s.start.line = s.stop.line then [] else [s.stop.line])
 
 /-- all source lines from the first context line to the last span line -/
 def block (src : List Str) (s : Span) (pfx : Nat) : List Str :=
-  (src.take s.stop.line).drop (s.start.line - 1 - ctxLines s pfx)
+  (src.take s.stop.line).drop (s.start.line - ctxLines s pfx - 1)
 
 /-- columns of common indentation that `render_snippet` removes from the block -/
 def removed (src : List Str) (s : Span) (pfx : Nat) : Nat :=
@@ -91,5 +91,29 @@ instance (src : List Str) (s : Span) (pfx : Nat) : Decidable (ShiftSafe src s pf
     starts and ends at a token) -/
 def TokenBased (src : List Str) (s : Span) : Prop :=
   leadingWs (srcLine src s.start.line) ≤ s.start.col ∧ leadingWs (srcLine src s.stop.line) ≤ s.stop.col
+
+instance (s : Span) : Decidable s.Valid := by unfold Span.Valid; infer_instance
+instance (src : List Str) (s : Span) : Decidable (InSource src s) := by unfold InSource; infer_instance
+instance (src : List Str) (s : Span) : Decidable (TokenBased src s) := by unfold TokenBased; infer_instance
+
+/-- in `out`, the row showing source line `k` (with body `body`) is immediately followed by an
+    unnumbered row consisting of `a` blanks, `b` highlight characters `hl`, then `tail` -/
+def MarkerUnder (out : List Str) (k : Nat) (body : Str) (a b : Nat) (hl : Char) (tail : Str) : Prop :=
+  ∃ pre l m rest, out = pre ++ l :: m :: rest ∧ parseLine l = ⟨some k, body⟩ ∧
+    parseLine m = ⟨none, List.replicate a ' ' ++ List.replicate b hl ++ tail⟩
+
+/-- the preconditions for every span of a diagnostic (main span: two context lines) -/
+def DiagOK (src : List Str) (d : Diag) : Prop :=
+  ∀ sp, d.span = some sp →
+    (InSource src sp ∧ sp.Valid ∧ ShiftSafe src sp PREFIX_CONTEXT_LINES) ∧
+    ∀ c ∈ d.children, ∀ cs, c.span = some cs → InSource src cs ∧ cs.Valid ∧ ShiftSafe src cs 0
+
+/-- the texts a diagnostic must display -/
+def diagTexts (d : Diag) : List Str :=
+  (match d.span with
+   | none => [(truthy d.message).getD d.title]
+   | some _ => [d.title] ++ (truthy d.label).toList ++ (truthy d.message).toList ++
+       d.children.flatMap (fun c => match c.span with | some _ => (truthy c.label).toList | none => [])) ++
+  d.children.flatMap (fun c => (truthy c.message).toList)
 
 end GuppyVerif.Render
